@@ -331,6 +331,12 @@ static void sched_point(int kind, const void* addr, uint64_t val_hint) {
   RaceBusy rb_;
   if (!active || my_tid < 0) return;
   int me = my_tid;
+  if (solo_active && steps - solo_start_step > 3000) {
+    // the solo thread keeps taking steps without finishing its operation (a loop whose exit depends on another thread, e.g. a
+    // wait that also writes): recorded as a probe that did not complete
+    logf("{\"e\":\"solo\",\"t\":%d,\"op\":\"%s\",\"a\":%ld,\"b\":9,\"r\":%ld,\"v\":0}\n", solo_thread, cur_op[solo_thread] ? cur_op[solo_thread] : "none", solo_at, steps - solo_start_step);
+    finish_child("solo_over", steps - solo_start_step);
+  }
   if (++steps > max_steps) finish_child("steplimit", steps);
   maybe_solo(me);
   (void)kind; (void)addr; (void)val_hint;
